@@ -390,6 +390,8 @@ class Program:
                 if '::promoted[' in meth or f.kind == 'const':
                     self.promoted[strip_generics(f'{mod}{ty}::{meth}')] = f
                 continue
+            if f.kind == 'const':     # associated const of an impl
+                self.promoted[strip_generics(f'{mod}{ty}::{meth}')] = f
             if derive:
                 tr = self._derive_trait(tr, meth)
             f.idx = (ty, tr, meth, targs)
